@@ -126,7 +126,7 @@ template <class T> static int enc_rk(const unsigned char *key, size_t klen, cons
     obj.set_nonce(nonce, 16);                      /* the nonce is set BEFORE the new key: set_key is documented to leave it as it is */
     if (!(zero ? obj.set_key(key, 0) : obj.set_key(key, klen))) return -1001;
     /* refused keying calls (unsupported length, null pointer with a length) return false and leave the accepted key in place */
-    if (obj.set_key(key, klen + 1) || obj.set_key(key, 7) || obj.set_key(0, klen)) return -1002;
+    if (obj.set_key(key, klen + 1) || obj.set_key(key, 7) || obj.set_key(0, klen) || obj.set_key(0, 80)) return -1002;
     return obj.encrypt(c, m, mlen, ad, adlen);
 }
 extern "C" int cpp_encrypt_rekey(int family, int alg, const unsigned char *key, const unsigned char *nonce,
